@@ -244,6 +244,13 @@ func runCliScenario(sc cliScenario, run int, res *hx.Result) []cliEvent {
 		r.mu.Lock()
 		r.waitFor(2*time.Second, func() bool { return r.nreq >= 3 })
 		autoReply = true
+		// one of the three is abandoned by its caller: its tag stays taken until the peer answers
+		c1 := r.cancels[1]
+		r.log(cliEvent{E: "cancel", I: 1})
+		r.mu.Unlock()
+		c1()
+		r.mu.Lock()
+		r.waitFor(2*time.Second, func() bool { return r.returned[1] })
 		r.mu.Unlock()
 		// two issuers, so that the stream goes on while one call is kept waiting by the peer
 		var next int64
